@@ -2826,6 +2826,7 @@ impl Fsm {
         if tstates.isEmpty() {
             domain = 0;
         } else if t.transition_type == TransitionType::Internal
+            && !self.isSCXMLElement(t.source)
             && self.isCompoundState(t.source)
             && tstates.every(&|s| -> bool { self.isDescendant(*s, t.source) })
         {
